@@ -417,6 +417,8 @@ Proof.
         rewrite H2, H3. reflexivity.
 Qed.
 
+Local Transparent Z.mul.
+
 (* the committed bytes have exactly the committed length *)
 Lemma msg_len h q m : Inv h q -> In m q -> Z.of_nat (length (m_data m)) = m_nb m.
 Proof.
@@ -513,6 +515,9 @@ Proof.
   destruct (w_alloc_bytes (hr h) nb) as [s' [o|]]; inversion E; subst; reflexivity.
 Qed.
 
+Lemma rfetch_inj a b c a' b' c' : RFetch (Some (a, b, c)) = RFetch (Some (a', b', c')) -> a = a' /\ b = b' /\ c = c'.
+Proof. intros H. inversion H. auto. Qed.
+
 Lemma indices_in_range n ops : 1 <= n < 2147483648 ->
   let h := fst (run (hinit n) ops) in
   0 <= wcur (hr h) <= n - 1 /\ 0 <= rcur (hr h) <= n - 1 /\ 0 <= crem (hr h) /\
@@ -527,17 +532,18 @@ Proof.
   pose proof (fetch_spec n h q I) as F. pose proof I as I0.
   destruct I as [[In Il Iw Ir Ic Iok Ish] _ _]. repeat split; auto; try lia.
   intros off nb bytes E. rewrite F in E. unfold expected_fetch in E. destruct q as [|m q']; [discriminate|].
-  inversion E; subst. exists (m_at m).
+  apply rfetch_inj in E. destruct E as (E1 & E2 & E3). subst off nb bytes. exists (m_at m).
   destruct (free_area n _ _ m Ic Iw Ir Ish (or_introl eq_refl)) as (A & B & C & D).
   pose proof (cal_bounds _ A) as (K1 & K2 & K3). unfold m_nc in *. repeat split; auto; unfold CL, HDR in *; lia.
 Qed.
 
-(* non-vacuity: on a ring of 8 lines the third message wraps (marker at line 6, allocation at offset 8
-   while the reader is at line 3) and is delivered after the second, byte for byte *)
+(* non-vacuity: on a ring of 8 lines (messages of 4 and 3 lines, the first consumed) the third
+   message wraps: marker at line 7, allocation at offset 8 while the reader is at line 4; it is
+   delivered after the second, byte for byte, and then the ring is empty *)
 Example seq_nonvacuous :
-  snd (run (hinit 8) [OAlloc 1; OWrite 0 [5]; OCommit; OAlloc 2; OWrite 0 [6; 7]; OCommit; OFetch; ORMove;
-                      OAlloc 3; OWrite 0 [8; 9; 10]; OCommit; OFetch; ORMove; OFetch; ORMove; OFetch]) =
-  [RAlloc (Some 8); RDone; RDone; RAlloc (Some 200); RDone; RDone; RFetch (Some (8, 1, [5])); RDone;
-   RAlloc (Some 8); RDone; RDone; RFetch (Some (200, 2, [6; 7])); RDone; RFetch (Some (8, 3, [8; 9; 10])); RDone;
-   RFetch None].
-Proof. vm_compute. reflexivity. Qed.
+  let rs := snd (run (hinit 8) [OAlloc 100; OWrite 0 [5]; OCommit; OAlloc 2; OWrite 0 [6; 7]; OCommit; OFetch; ORMove;
+                      OAlloc 3; OWrite 0 [8; 9; 10]; OCommit; OFetch; ORMove; OFetch; ORMove; OFetch]) in
+  nth 3 rs RSkip = RAlloc (Some 264) /\ nth 8 rs RSkip = RAlloc (Some 8) /\
+  nth 11 rs RSkip = RFetch (Some (264, 2, [6; 7])) /\ nth 13 rs RSkip = RFetch (Some (8, 3, [8; 9; 10])) /\
+  nth 15 rs RSkip = RFetch None.
+Proof. vm_compute. repeat split; reflexivity. Qed.
